@@ -24,6 +24,26 @@ Lemma slice_iw_getitem x (inv : bool) stop step v : slice_val x stop step = Ok v
   getitem x (if inv then STrue else SNone) stop step = Ok (VIW (slice_iw x inv stop step)).
 Proof. intros H. unfold getitem, slice_iw. rewrite H. destruct inv; reflexivity. Qed.
 
+(* ---- decision trees: the paths the translator explored; conditions are boolean terms over the arguments *)
+Inductive tree (A : Type) := Leaf (a : A) | Node (c : bool) (t f : tree A).
+Arguments Leaf {A} a. Arguments Node {A} c t f.
+Fixpoint tree_eval {A} (t : tree A) : A :=
+  match t with Leaf a => a | Node c t f => if c then tree_eval t else tree_eval f end.
+(* every leaf that the conditions can select satisfies P: a branch is skipped only when its condition
+   computes to a constant (the disjunctions are written so that a stuck condition does not help) *)
+Fixpoint tree_all {A} (P : A -> bool) (t : tree A) : bool :=
+  match t with
+  | Leaf a => P a
+  | Node c t f => (tree_all P t || negb c) && (tree_all P f || c)
+  end.
+Lemma tree_all_sound {A} (P : A -> bool) t : tree_all P t = true -> P (tree_eval t) = true.
+Proof.
+  induction t as [a|c t IHt f IHf]; cbn; intros H; [exact H|].
+  apply andb_true_iff in H as [H1 H2]. destruct c; cbn in *.
+  - rewrite orb_false_r in H1. auto.
+  - rewrite orb_false_r in H2. auto.
+Qed.
+
 (* ---- encode models *)
 Inductive pos_item := PTimings (x : iw) | PConst (l : list Z).
 (* a frame is the concatenation of parts: results of _build_packet calls and constant duration lists *)
